@@ -144,6 +144,20 @@ def compare_code(c, i, ref, x, co_code_hex=None):
         pos += w
     if ok_tiling and pos != n:
         c.fail("tiling", "end", "%s stream ends at %d, len(co_code) = %d" % (tag, pos, n))
+    loi = x.get("instrs_loi")
+    if loi is not None:
+        if "err" in loi:
+            c.fail("argval", "LineOffsetInfo-raised", "%s LineOffsetInfo(opc, code) raised %s" % (tag, loi["err"]))
+        else:
+            for a, b in zip(xi, loi["instrs"]):
+                if (a["o"], a["op"], a["a"]) != (b["o"], b["op"], b["a"]):
+                    c.fail("decode", "LineOffsetInfo.instructions", "%s at %d: Bytecode gives %s %s, LineOffsetInfo.instructions gives %s %s" % (
+                        tag, a["o"], a["n"], a["a"], b["n"], b["a"]))
+                    break
+                if a["v"] != b["v"]:
+                    c.fail("argval", "LineOffsetInfo.instructions|%s" % a["k"], "%s at %d %s %s: Bytecode resolves %s, LineOffsetInfo.instructions %s" % (
+                        tag, a["o"], a["n"], a["a"], cn.summary(a["v"]), cn.summary(b["v"])))
+                    break
     gi = x.get("instrs_gi")
     if gi is not None:
         if "err" in gi:
@@ -332,6 +346,11 @@ def internal_consistency(c, i, x):
             if ins["v"] not in starts:
                 c.fail("jump", "target-not-instruction-start", "%s %s at %d -> %d is not an instruction start" % (tag, ins["n"], ins["o"], ins["v"]))
                 break
+    for ins in xi:
+        if ins["n"].startswith("<"):
+            c.fail("decode", "undefined-opcode-in-compiled-file", "%s at %d: opcode %d has no name in the %s table, yet a compiler of that "
+                   "version emitted it" % (tag, ins["o"], ins["op"], getattr(c, "version", v)))
+            break
     if "labels" in x and targets != labels:
         c.fail("labels", "labels-vs-jump-operands", "%s findlabels %s but jump operands point to %s" % (
             tag, sorted(labels)[:10], sorted(targets)[:10]))
